@@ -878,8 +878,9 @@ def run(ctx):
         "recorded stage results being equal whenever the fields are equal, not proved).",
         "Scores are compared after rounding to 1e-9.",
         "is_long_read is not restored by a dump; only a log message depends on it (not part of the result).",
-        "Profile files whose options section sets display_format/debug_probe/debug_novel/min_avg_coverage are outside the quantifier "
-        "(no shipped profile does; MC_DumpReplay_options shows such a run would not replay).",
+        "No shipped profile sets display_format/debug_probe/debug_novel/min_avg_coverage in its options section; profile FILES written by "
+        "aldy's own profile writer with such options are exercised (every 8th case) and are the known finding C17-reset-param-from-options.",
+        "The long-read fusion counter is always empty in short-read samples: its restoration is compared but never exercised.",
     ]
     tasks = tasks_for(ctx)
     t0 = time.time()
